@@ -23,7 +23,10 @@ type Gen struct {
 	PropNames []string
 	// ASCIIClasses keeps class members of byte mode below 0x80 (ranges may still cross).
 	ASCIIClasses bool
-	MaxRep       int // largest repetition bound (<= 16)
+	// MaxChar, if set, is the largest code point that may be mentioned (rune mode); used
+	// to keep the whole symbol map of a lexer below a given bound.
+	MaxChar rune
+	MaxRep  int // largest repetition bound (<= 16)
 	// ExactOnly rejects classes whose denotation is an interval (fold + predefined
 	// class, fold + subtraction with differing readings).
 	ExactOnly bool
@@ -79,6 +82,9 @@ func (g *Gen) char() rune {
 		if g.Mode.Bytes && ByteFoldTrap(c) {
 			continue
 		}
+		if g.MaxChar > 0 && c > g.MaxChar {
+			continue
+		}
 		return c
 	}
 }
@@ -118,7 +124,10 @@ func (g *Gen) classChar() rune {
 		return c
 	}
 	if g.R.Intn(25) == 0 {
-		return []rune{0, 0x7f, 0x80, 0xd800, 0xdfff, 0xfffd, 0x10ffff, 0xffff, 0x10000}[g.R.Intn(9)]
+		s := []rune{0, 0x7f, 0x80, 0xd800, 0xdfff, 0xfffd, 0x10ffff, 0xffff, 0x10000}[g.R.Intn(9)]
+		if g.MaxChar == 0 || s <= g.MaxChar {
+			return s
+		}
 	}
 	return c
 }
@@ -139,6 +148,12 @@ func (g *Gen) item() Item {
 		hi := lo + g.R.Int31n(int32(span)+1)
 		if hi > g.Mode.max() {
 			hi = g.Mode.max()
+		}
+		if g.MaxChar > 0 && hi >= g.MaxChar {
+			hi = g.MaxChar - 1 // hi+1 is a boundary of the symbol map
+			if hi < lo {
+				hi = lo
+			}
 		}
 		if g.R.Intn(8) == 0 {
 			// a range ending at an alphabet character
